@@ -141,6 +141,23 @@ struct BucketMirror<K: Ord> {
     postings: BTreeMap<K, (u32, u64, Vec<u64>)>,
 }
 
+#[derive(Serialize)]
+#[serde(bound(serialize = "K: Serialize + Ord"))]
+struct BucketOut<K: Ord> {
+    #[serde(rename = "p")]
+    postings: BTreeMap<K, (u32, u64, Vec<u64>)>,
+}
+
+fn decode_bucket<K: Key>(data: &[u8]) -> Option<BTreeMap<K, (u32, u64, Vec<u64>)>> {
+    cbor2::from_slice::<BucketMirror<K>>(data).ok().map(|b| b.postings)
+}
+
+fn encode_bucket<K: Key>(postings: BTreeMap<K, (u32, u64, Vec<u64>)>) -> Option<Vec<u8>> {
+    let mut buf = Vec::new();
+    cbor2::to_writer(&BucketOut { postings }, &mut buf).ok()?;
+    Some(buf)
+}
+
 fn keys_of<K: Key>(ks: &[u8]) -> Vec<K> {
     let u = K::universe();
     ks.iter().map(|i| u[*i as usize].clone()).collect()
@@ -478,6 +495,20 @@ impl<K: Key> Sut for Bt<K> {
         for spec in trees::<K>(depth) {
             check_spec(idx, model, &spec, true, evals)?;
         }
+        // Nested trees (depth 3) in the quick tier: which keys a tree selects is a function
+        // of the KEY SET only (range_keys / range_key_matches_query read the ordered key
+        // set, never the postings), so the nested battery runs once per distinct key set
+        // of each index configuration instead of once per model state.
+        if depth == 2 {
+            let tag = format!("{}|{}|{:?}", K::NAME, _cfg.unique, mkeys.iter().map(|k| k.show()).collect::<Vec<_>>());
+            let first = NESTED_DONE.lock().insert(tag);
+            if first {
+                for spec in nested_trees::<K>() {
+                    check_spec(idx, model, &spec, true, evals)?;
+                }
+                NESTED_KEYSETS.fetch_add(1, std::sync::atomic::Ordering::Relaxed);
+            }
+        }
         Ok(())
     }
 
@@ -509,6 +540,57 @@ impl<K: Key> Sut for Bt<K> {
             }
             Err(_) => format!("raw{:016x}", vcore::util::fnv64(data)),
         }
+    }
+
+    /// Legacy (manifest-less, un-suffixed generation-0) layouts with the
+    /// leftovers the loader documents: the same key in two bucket objects
+    /// ("higher bucket ids are the newer state") and an empty posting
+    /// ("treat it as a tombstone: skip it, drop any stale copy already loaded
+    /// from an older bucket"). The model follows those two sentences: walk the
+    /// objects by ascending bucket id, a later posting replaces an earlier
+    /// one, an empty one deletes the key.
+    fn fabricate(cfg: &BtCfg, store: &Store, model: &Model<K>, recipe: &str) -> Option<(Store, Model<K>)> {
+        let mut out = Self::to_legacy(cfg, store)?;
+        let mut objs: BTreeMap<u32, BTreeMap<K, (u32, u64, Vec<u64>)>> = BTreeMap::new();
+        for (k, d) in &out {
+            if let ObjKey::Bucket(b, _) = k {
+                objs.insert(*b, decode_bucket::<K>(d)?);
+            }
+        }
+        // the key to play with: the largest key of the highest non-empty bucket above bucket 0
+        let (high, key) = objs
+            .iter()
+            .rev()
+            .find(|(b, p)| **b > 0 && !p.is_empty())
+            .map(|(b, p)| (*b, p.keys().next_back().unwrap().clone()))?;
+        let low = *objs.keys().next()?;
+        if low >= high || objs[&low].contains_key(&key) {
+            return None;
+        }
+        let real = objs[&high][&key].clone();
+        let mut m = model.clone();
+        match recipe {
+            // an older copy of a posting that migrated upwards, with other ids
+            "stale-dup" => {
+                objs.get_mut(&low)?.insert(key.clone(), (low, 1, vec![K::pk(2)]));
+            }
+            // the posting was emptied after it migrated: tombstone above, stale copy below
+            "tombstone-over-stale" => {
+                objs.get_mut(&low)?.insert(key.clone(), (low, 1, real.2.clone()));
+                objs.get_mut(&high)?.insert(key.clone(), (high, real.1 + 1, vec![]));
+                m.remove(&key);
+            }
+            // an empty posting with no older copy
+            "tombstone" => {
+                objs.get_mut(&high)?.insert(key.clone(), (high, real.1 + 1, vec![]));
+                m.remove(&key);
+            }
+            _ => return None,
+        }
+        for (b, p) in objs {
+            out.insert(ObjKey::Bucket(b, 0), encode_bucket::<K>(p)?);
+        }
+        Some((out, m))
     }
 
     fn to_legacy(_cfg: &BtCfg, store: &Store) -> Option<Store> {
@@ -817,6 +899,60 @@ pub fn trees<K: Key>(depth: usize) -> Vec<Spec<K>> {
     }
 }
 
+/// key sets (per key type and uniqueness) that already had the nested battery
+static NESTED_DONE: parking_lot::Mutex<BTreeSet<String>> = parking_lot::Mutex::new(BTreeSet::new());
+pub static NESTED_KEYSETS: std::sync::atomic::AtomicU64 = std::sync::atomic::AtomicU64::new(0);
+
+/// Depth-3 trees for the quick tier. Leaves L: one of each seed rank (Eq,
+/// Include with a repeat, Between, open ranges in both directions).
+/// Composites C over L: Not(l), And/Or of every ordered pair. Trees:
+/// Not(c); And/Or of (c, l) and (l, c) for every c and l; And/Or of every
+/// ordered pair of the negations and of (Not(l), c). Every operand kind thus
+/// occurs nested as the intersection seed, as a non-seed filter operand, as a
+/// union member and under a negation.
+pub fn nested_trees<K: Key>() -> Vec<Spec<K>> {
+    let p = K::probes();
+    let inc = include_lists::<K>();
+    let leaves: Vec<Spec<K>> = vec![
+        Spec::Eq(p[2].clone()),
+        Spec::Include(inc[1].clone()),
+        Spec::Between(p[2].clone(), p[5].clone()),
+        Spec::Gt(p[1].clone()),
+        Spec::Le(p[3].clone()),
+    ];
+    let nots: Vec<Spec<K>> = leaves.iter().map(|l| Spec::Not(Box::new(l.clone()))).collect();
+    let mut comps: Vec<Spec<K>> = nots.clone();
+    for x in &leaves {
+        for y in &leaves {
+            comps.push(Spec::And(vec![x.clone(), y.clone()]));
+            comps.push(Spec::Or(vec![x.clone(), y.clone()]));
+        }
+    }
+    let mut out = Vec::new();
+    for c in &comps {
+        out.push(Spec::Not(Box::new(c.clone())));
+        for l in &leaves {
+            out.push(Spec::And(vec![c.clone(), l.clone()]));
+            out.push(Spec::And(vec![l.clone(), c.clone()]));
+            out.push(Spec::Or(vec![c.clone(), l.clone()]));
+            out.push(Spec::Or(vec![l.clone(), c.clone()]));
+        }
+    }
+    for n in &nots {
+        for c in &comps {
+            out.push(Spec::And(vec![n.clone(), c.clone()]));
+            out.push(Spec::And(vec![c.clone(), n.clone()]));
+            out.push(Spec::Or(vec![n.clone(), c.clone()]));
+        }
+    }
+    // a nested operand between two leaves (swap_remove of the seed reorders the rest)
+    for c in comps.iter().step_by(3) {
+        out.push(Spec::And(vec![leaves[3].clone(), c.clone(), leaves[4].clone()]));
+        out.push(Spec::And(vec![leaves[0].clone(), leaves[4].clone(), c.clone()]));
+    }
+    out
+}
+
 pub fn tree_count<K: Key>(depth: usize) -> usize {
     trees::<K>(depth).len()
 }
@@ -888,6 +1024,91 @@ pub fn alphabet_growth() -> Vec<HOp<BtOp>> {
     a.push(HOp::Do(BtOp::Insert(0, 0)));
     a.push(HOp::Do(BtOp::Remove(0, 0)));
     a
+}
+
+/// Start states whose ops are executed but not enumerated.
+pub fn preludes() -> Vec<(&'static str, Vec<HOp<BtOp>>)> {
+    // every key owned by ids 0 and 1 (postings that can SHRINK without becoming empty), the
+    // long key and key a by id 2 as well: several 64-byte buckets
+    let populated = vec![
+        HOp::Do(BtOp::InsertArray(0, vec![0, 1, 2, 3])),
+        HOp::Do(BtOp::InsertArray(1, vec![0, 1, 2, 3])),
+        HOp::Do(BtOp::Insert(2, 3)),
+        HOp::Do(BtOp::Insert(2, 0)),
+    ];
+    let mut flushed = populated.clone();
+    flushed.push(HOp::Flush);
+    // shrunk after the flush so that buckets are under-filled, then compacted and flushed
+    let mut compacted = flushed.clone();
+    compacted.extend([
+        HOp::Do(BtOp::Remove(2, 3)),
+        HOp::Do(BtOp::RemoveArray(1, vec![2, 3])),
+        HOp::Compact,
+        HOp::Flush,
+    ]);
+    // for unique indexes: one owner per key
+    let unique = vec![
+        HOp::Do(BtOp::InsertArray(0, vec![0, 3])),
+        HOp::Do(BtOp::Insert(1, 1)),
+        HOp::Do(BtOp::Insert(2, 2)),
+        HOp::Flush,
+        HOp::Do(BtOp::Remove(2, 2)),
+        HOp::Compact,
+        HOp::Flush,
+    ];
+    vec![
+        ("prelude-populated", populated),
+        ("prelude-populated-flushed", flushed),
+        ("prelude-shrunk-compacted-flushed", compacted),
+        ("prelude-unique-compacted-flushed", unique),
+    ]
+}
+
+/// (label, seed, recipe) of the hand-made legacy layouts (`Bt::fabricate`).
+pub fn fabricated() -> Vec<(&'static str, Vec<HOp<BtOp>>, &'static str)> {
+    let seed = vec![
+        HOp::Do(BtOp::Insert(0, 0)),
+        HOp::Do(BtOp::Insert(0, 1)),
+        HOp::Do(BtOp::InsertArray(1, vec![0, 3])),
+        HOp::Do(BtOp::Insert(0, 2)),
+        HOp::Do(BtOp::Insert(1, 2)),
+    ];
+    vec![
+        ("legacy-stale-duplicate-below", seed.clone(), "stale-dup"),
+        ("legacy-tombstone-over-stale-copy", seed.clone(), "tombstone-over-stale"),
+        ("legacy-tombstone", seed, "tombstone"),
+    ]
+}
+
+/// Where the histories of a job start.
+#[derive(Clone, Copy, Debug)]
+pub enum Origin {
+    Fresh,
+    /// index into `legacy_seeds()`
+    Legacy(usize),
+    /// index into `preludes()`
+    Prelude(usize),
+    /// index into `fabricated()`
+    Fabricated(usize),
+}
+
+pub fn origin_start(o: Origin) -> (crate::engine::Start<BtOp>, String) {
+    use crate::engine::Start;
+    match o {
+        Origin::Fresh => (Start::Fresh, "fresh".to_string()),
+        Origin::Legacy(i) => {
+            let (name, seed) = legacy_seeds().swap_remove(i);
+            (Start::Legacy(seed), name.to_string())
+        }
+        Origin::Prelude(i) => {
+            let (name, ops) = preludes().swap_remove(i);
+            (Start::Prelude(ops), name.to_string())
+        }
+        Origin::Fabricated(i) => {
+            let (name, seed, recipe) = fabricated().swap_remove(i);
+            (Start::Fabricated { seed, recipe: recipe.to_string() }, name.to_string())
+        }
+    }
 }
 
 /// Seeds whose flushed state is rewritten into the pre-manifest layout.
